@@ -444,6 +444,8 @@ class AdapterModel:
             if t["k"] == "call" and t["dest"]["l"] == 0 and not t["dest"]["p"]:
                 if t["func"]["k"] == "const" and re.search(r"FromResidual", t["func"]["fn"]["def"]):
                     return "Err"
+                if bb in self.inner:
+                    return "FwdCall"      # `return inner.poll_next(cx)`: whatever the inner queue answers is the answer
                 return "Call"
             for s in reversed(b.stmts(bb)):
                 if s["k"] == "assign" and s["place"]["l"] == 0 and not s["place"]["p"]:
@@ -453,6 +455,11 @@ class AdapterModel:
                             return "Pending"
                         e = fl.rvalue_expr(rv, bb)
                         inner = e[2][0]
+                        if inner[0] != "agg" and any(c[3] in self.inner for c in expr_calls(inner)):
+                            # Poll::Ready(<the inner queue's own Option>): what that poll answered
+                            last_i = [e_ for e_ in ev if e_[0] == "I"]
+                            if last_i and last_i[-1][1] in ("Some", "None"):
+                                return "Forward:%s" % last_i[-1][1]
                         if inner[0] == "agg" and inner[1].endswith("Option::None"):
                             return "None"
                         if inner[0] == "agg" and inner[1].endswith("Option::Some"):
@@ -464,6 +471,27 @@ class AdapterModel:
                             return "Done"
                         return "Ready"
                     if rv["k"] == "use":
+                        # a value built earlier on this path and moved into the return slot (`map_or(Poll::Pending, ..)`'s default,
+                        # the verdict of an inlined helper): what it is on THIS path
+                        from lib_flow import PathEval
+                        r_ = PathEval(b, path).local_expr(0)
+                        if r_[0] == "agg" and r_[1].endswith("Poll::Pending"):
+                            return "Pending"
+                        if r_[0] == "agg" and r_[1].endswith("Poll::Ready") and r_[2]:
+                            inner = r_[2][0]
+                            if inner[0] == "agg" and inner[1].endswith("Option::None"):
+                                return "None"
+                            if inner[0] == "agg" and inner[1].endswith("Option::Some"):
+                                if inner[2] and inner[2][0][0] == "agg" and inner[2][0][1].endswith("Result::Err") and \
+                                        any(c[3] in self.up_sites for c in expr_calls(inner[2][0])):
+                                    return "Err"
+                                return "Some"
+                            if inner[0] == "agg" and inner[1] == "tuple" and not inner[2]:
+                                return "Done"
+                            if any(c[3] in self.inner for c in expr_calls(inner)):
+                                last_i = [e for e in ev if e[0] == "I"]
+                                if last_i:
+                                    return "Forward:%s" % last_i[-1][1]
                         # forwarded inner result
                         last_i = [e for e in ev if e[0] == "I"]
                         if last_i:
@@ -478,10 +506,23 @@ class AdapterModel:
         if loop_visits in cache:
             return cache[loop_visits]
         res = []
+        from lib_flow import path_const_feasible
         for kind, path, know in sensitive_paths(self.b, self.fl, loop_visits):
             if kind != "return":
                 continue
-            res.append((path, self.events(path, know)))
+            if not path_const_feasible(self.b, path):
+                continue          # contradicts a constant carried through an aggregate on this very path
+            ev = self.events(path, know)
+            if ev and ev[-1] == ("RET", "FwdCall"):
+                # the inner poll's result is returned as it is: one event sequence per possible answer
+                li = max(i for i, e_ in enumerate(ev) if e_[0] == "I")
+                for out_ in ("Pending", "Some", "None"):
+                    ev2 = list(ev)
+                    ev2[li] = ("I", out_, ev[li][2])
+                    ev2[-1] = ("RET", "Forward:%s" % out_)
+                    res.append((path, ev2))
+                continue
+            res.append((path, ev))
         cache[loop_visits] = res
         return res
 
